@@ -86,6 +86,7 @@ func checkC10(p *load.Program, r *kit.Report) {
 			return o.Rule != "MERGE-SHAPE" || strings.HasPrefix(o.Construct, "Branch.Save")
 		}, "MAIN-FILE-SHAPE", "MERGE-SHAPE")
 	importRules(p, r, "C11", "best-chain history that Clean drops from memory stays retrievable by hash only if its hashes are in the height map: the restore paths (load, migrate) must have registered them", 3, nil, "RESTORE-REGISTERS")
+	importRules(p, r, "C09", "the best-chain status of a header must not depend on whether Clean has pruned its height from memory: on the height-map arm the flag is a comparison with the best chain's header at that height, whatever the height", 4, nil, "FLAG-RULE")
 	r.NotDecided = "the statement itself (all observables equal before/after Clean for every tree): consolidation correctness for three or more generations as values, file-boundary and prune-depth arithmetic over histories. Decided are ordering, coverage-of-every-branch, label and all-or-nothing facts that are necessary for it."
 	r.Rule("ORDER", "clean runs consolidate → saveMainBranch → prune → saveInvalidHashes, each behind the previous nil-error edge; in prune every branch is saved before it is pruned or dropped and a Save error returns before repo.branches is replaced; nothing is added to a branch and no tip is stored after the automatic clean in ProcessHeader", 6)
 	r.Rule("NO-EFFECT-BEFORE-ERROR", "consolidate replaces repo.branches and repo.longest only after its last error return", 3)
